@@ -98,8 +98,11 @@ def empty_state(env: Optional[Dict[str, str]] = None) -> SymState:
     return SymState(frozenset((env or {}).items()), frozenset(), (), ())
 
 
+_TOKEN_RE = __import__('re').compile(r'^NEW_\w+_L\d+$')
+
+
 def is_token(term: str) -> bool:
-    return term.startswith('NEW_')
+    return bool(_TOKEN_RE.match(term))
 
 
 def token_class(term: str) -> str:
@@ -142,6 +145,18 @@ class _Subst(ast.NodeTransformer):
         return node
 
     def visit_Lambda(self, node):
+        return node
+
+    def visit_Call(self, node):
+        # a constructor call of a package class denotes the object created there
+        tok = None
+        if hasattr(node, 'lineno') and getattr(node, '_pnd_orig', False):
+            r = self.client._resolve_callee(node.func, None)
+            if isinstance(r, ClassRef):
+                tok = self.client.new_token(r.name, node)
+        node = self.generic_visit(node)
+        if tok is not None:
+            return ast.Name(id=tok, ctx=ast.Load())
         return node
 
     def visit_GeneratorExp(self, node):
@@ -211,7 +226,11 @@ class SymClient(Client):
             return 'None'
         if not heap_ext:
             s = SymState(s.env, frozenset(h for h in s.heap if not h[0].startswith('EXT:')), s.conds, s.trail)
-        e2 = _Subst(self, s).visit(copy.deepcopy(e))
+        e1 = copy.deepcopy(e)
+        for n in ast.walk(e1):
+            if isinstance(n, ast.Call):
+                n._pnd_orig = True
+        e2 = _Subst(self, s).visit(e1)
         ast.fix_missing_locations(e2)
         return ast.unparse(e2)
 
@@ -275,8 +294,9 @@ class SymClient(Client):
         callee_txt = self.term(call.func, s, heap_ext=False)
         kind = self.event_of(call, callee_txt, self, s)
         if kind:
-            args = tuple(self.term(a, s) for a in call.args)
-            kwargs = tuple((k.arg or '**', self.term(k.value, s)) for k in call.keywords)
+            args = tuple(self.value_term(a, s.with_ret(None)) if not isinstance(a, ast.Starred) else '*' + self.term(a.value, s)
+                         for a in call.args)
+            kwargs = tuple((k.arg or '**', self.value_term(k.value, s.with_ret(None))) for k in call.keywords)
             snap = []
             for a in list(args) + [v for _, v in kwargs]:
                 if is_token(a):
@@ -497,6 +517,7 @@ class SymClient(Client):
 
     def loop_enter(self, st, s: SymState):
         mark = Event('loop', 'L%d' % st.lineno, (str(len(s.conds)),), (), (), st.lineno, s.conds, self.f.key)
+        self.log.append((mark, s))
         return [SymState(s.env, s.heap, s.conds, s.trail + (mark,), s.ret)]
 
     def back_edge(self, st, s: SymState):
@@ -568,3 +589,57 @@ def _is_generator(fnode) -> bool:
 
 def conds_before(ev: Event) -> Tuple[str, ...]:
     return ev.conds
+
+
+# --------------------------------------------------------------------------- helpers for rules
+
+def loop_body_outcomes(client: SymClient, loop: ast.AST):
+    """Run one iteration of ``loop`` (a For/While node of the analysed function) from every
+    state in which the loop was entered; returns flow.Outcomes for the body alone.  Per-iteration
+    rules (exactly one response per match, ...) use this instead of the widened final states."""
+    entries = [st for ev, st in client.log if ev.kind == 'loop' and ev.line == loop.lineno]
+    if not entries:
+        raise AnalysisError('loop at line %d was never entered by the analysis' % loop.lineno)
+    flow = Flow(client)
+    states = set()
+    for st in entries:
+        st = SymState(st.env, st.heap, st.conds, (), None)
+        if isinstance(loop, ast.For):
+            states |= set(client.loop_bind(loop, st))
+        else:
+            states.add(st)
+    if isinstance(loop, ast.While):
+        t, f, exc = flow.cond(loop.test, states)
+        states = t
+    return flow.run(loop.body, states)
+
+
+class _ExpandItems(ast.NodeTransformer):
+    def visit_Subscript(self, node):
+        node = self.generic_visit(node)
+        v = node.value
+        if isinstance(v, ast.Call) and isinstance(v.func, ast.Name) and v.func.id == 'ITEM' and len(v.args) == 1 \
+                and isinstance(v.args[0], (ast.GeneratorExp, ast.ListComp)) and isinstance(node.slice, ast.Constant) \
+                and isinstance(node.slice.value, int):
+            g = v.args[0]
+            if len(g.generators) == 1 and isinstance(g.elt, ast.Tuple) and not g.generators[0].ifs \
+                    and isinstance(g.generators[0].target, ast.Name) and node.slice.value < len(g.elt.elts):
+                tgt = g.generators[0].target.id
+                item = ast.Call(func=ast.Name(id='ITEM', ctx=ast.Load()), args=[g.generators[0].iter], keywords=[])
+
+                class _R(ast.NodeTransformer):
+                    def visit_Name(self_inner, n):
+                        return copy.deepcopy(item) if n.id == tgt else n
+                return _R().visit(copy.deepcopy(g.elt.elts[node.slice.value]))
+        return node
+
+
+def expand_items(term: str) -> str:
+    """``ITEM((a.x, a.y) for a in S)[1]`` -> ``ITEM(S).y`` (elements of a tuple-building generator)."""
+    try:
+        e = ast.parse(term, mode='eval').body
+    except SyntaxError:
+        return term
+    e2 = _ExpandItems().visit(e)
+    ast.fix_missing_locations(e2)
+    return ast.unparse(e2)
